@@ -193,6 +193,12 @@ pub fn c10(ctx: &Ctx, rep: &mut Report) {
             };
             rep.count("large_sequences");
             (n, width)
+        } else if rng.chance(1, 40) {
+            // widths near the top of the integer range ("all wrap widths >= 1"): anything that adds to or
+            // multiplies the width overflows
+            let width = *rng.pick(&[usize::MAX, usize::MAX - 1, usize::MAX / 2 + 1, usize::MAX / 2, 1usize << 63, (1usize << 32) + 1, 1usize << 32, (1usize << 32) - 1, 1usize << 31]);
+            rep.count("huge_widths");
+            (rng.below(40), width)
         } else {
             let width = *rng.pick(&[1usize, 2, 3, 4, 5, 6, 7, 8, 9, 10, 11, 12, 13, 14, 15, 16, 17, 60, 80]);
             let n = match rng.below(4) {
